@@ -316,9 +316,12 @@ func (s *Sched) switchFrom(g *G) {
 		if next == g {
 			return
 		}
+		// read before the token is handed over: once the next goroutine runs, the episode may end
+		// and the finisher mark g done while g is still on its way to its wake channel
+		gone := g.done
 		s.cur = next
 		next.wake <- struct{}{}
-		if g.done {
+		if gone {
 			return
 		}
 		<-g.wake
